@@ -1,6 +1,6 @@
 (* Extraction of the C11 model for the correspondence driver.  ExtrOcamlBasic and
    ExtrOcamlString only: N, Z, positive, nat stay the extracted inductive datatypes. *)
-From SV Require Import Base.Prelude Model.Shard Model.ShardConnect.
+From SV Require Import Base.Prelude Model.Shard Model.ShardConnect Model.ShardRange.
 Require Extraction.
 Require Import ExtrOcamlBasic ExtrOcamlString.
 Extraction Language OCaml.
@@ -8,4 +8,5 @@ Extraction "../ocaml/c11/model.ml" shard_of spec_shard_of shard_of_source_port p
   accept_iter accept_draw prop_iter_ok prop_draw_ok parse_shard_info
   accept_conn accept_conns starvedb
   connect_loop open_shard_aware tried_shard_aware env_busy open_many free_ports some_pivot_gives
-  runs_for_shard shard_count_bounds.
+  runs_for_shard shard_count_bounds
+  port_range_new draw_port_new iter_ports_new.
